@@ -7,7 +7,7 @@ import reactivex
 from reactivex import operators as ops
 
 from vlib.core import FAIL, OK, SKIP, Check, HarnessError
-from vlib.hoc import POLICIES, TSource, all_subs, compare_union, exact_trace, draw_outer, draw_second, inner_specs, max_overlap, saturated_case, second_tick, simulate, subs_cover
+from vlib.hoc import POLICIES, IterInner, TSource, all_subs, compare_union, exact_trace, draw_outer, draw_second, inner_specs, max_overlap, saturated_case, second_tick, simulate, subs_cover
 from vlib.lab import Lab
 
 PROPERTY_ID = "C11"
@@ -17,7 +17,8 @@ RULE = (
     "inner, gaps 0-3, terminal completion / error / none = never completes) and an outer timeline (cold / synchronous / "
     "hot, 0-5 (thorough 0-7) elements selecting inners, possibly the same inner several times, terminal completion / error / none); "
     "forms merge_all, merge(max_concurrent=1..4), flat_map (mapper and constant-observable forms), flat_map_indexed, "
-    "concat_map (in a fifth of the mapper cases the mapper raises for one outer element: the output must terminate with that "
+    "concat_map (in a third of the flat_map / flat_map_indexed cases the mapper returns a lazy iterable - a generator that yields "
+    "1-3 items and then raises or ends - for some inners: its items must appear, in order, before its error; in a fifth of the mapper cases the mapper raises for one outer element: the output must terminate with that "
     "exception at the element's arrival instant, also while earlier inners occupy the concurrency slot), and the n-ary reactivex.merge(...) / ops.merge(...) forms (outer = the argument list); subscribed at a "
     "generated tick on the virtual scheduler (TestScheduler, one case in five on a HistoricalScheduler with 1 ms ticks; n-ary forms also through the default trampoline); half of the 'limited' "
     "cases use a saturation shape (slow inners fill max_concurrent, queued inners that complete synchronously inside "
@@ -34,6 +35,7 @@ RULE = (
     "probe (and the first) is judged by the same oracle with its own subscribe tick. Non-trivial: >= 2 inner subscriptions with overlapping lifetimes, or an inner was queued."
 )
 ASSUMPTIONS = [
+    "an inner given as a lazy iterable (flat_map accepts Mapper[T, Iterable]) is the sequence of the items it yields followed by completion, or by on_error with the exception it raises; all of it at the arrival instant; it has no subscription log",
     "a subsched inner that is not handed the scheduler the top-level subscription was made with would run on the library default (real time); in virtual time none of its notifications is ever seen - emulated by the traced source staying silent (no real timers are started)",
     "a Subject-backed inner (kind subject) delivers its terminal at once to a subscriber that arrives after, or during the dispatch of, that terminal (documented Subject behaviour)",
     "inner sources are conforming; a subscription counts as active until its own terminal was delivered or it was unsubscribed",
@@ -82,12 +84,16 @@ def build(case, lab, inners):
         outer = TSource(lab, case["outer"], "outer", decode=lambda name: inners[int(name[2:]) % n])
         return outer.pipe(ops.merge_all() if form == "merge_all" else ops.merge(max_concurrent=case["maxc"])), outer
     outer = TSource(lab, case["outer"], "outer")
+    def pick(i):
+        x = inners[i % n]
+        return x.make() if isinstance(x, IterInner) else x
+
     if form == "flat_map":
-        op = ops.flat_map(lab.fn("mapper", lambda x: inners[x % n]))
+        op = ops.flat_map(lab.fn("mapper", lambda x: pick(x)))
     elif form == "flat_map_const":
         op = ops.flat_map(inners[case["const"] % n])
     elif form == "flat_map_indexed":
-        op = ops.flat_map_indexed(lab.fn("mapper", lambda x, i: inners[(x + i) % n]))
+        op = ops.flat_map_indexed(lab.fn("mapper", lambda x, i: pick(x + i)))
     elif form == "concat_map":
         op = ops.concat_map(lab.fn("mapper", lambda x: inners[x % n]))
     else:
@@ -107,7 +113,7 @@ def _judge(case, op, p, subs, maxc, logs=True):
     tseq = p.terminal()[3] if p.terminal() else None
     before = [d for d in subs if tseq is None or d["sub_seq"] < tseq]
     got = [(d["src"], d["sub"]) for d in before]
-    exp = [(op.arrivals[j]["src"], op.arrivals[j]["sub"]) for j in op.started]
+    exp = [(op.arrivals[j]["src"], op.arrivals[j]["sub"]) for j in op.started if case["inners"][op.arrivals[j]["src"]]["kind"] != "iter"]
     if got != exp:
         if sorted(got) == sorted(exp):
             clause = "queue-order" if maxc is not None else "subscription-order"
@@ -135,7 +141,7 @@ def _run(case):
         ref = simulate(_outer_spec(case), case["inners"], _resolver(case), t0, "fifo", "merge", maxc, case.get("raise_at"))
         mode2, t2 = second_tick(sec, t0, ref.term[0] if ref.term else None)
     lab = Lab("hist", tick_s=0.001) if case.get("clock") == "hist" else Lab()
-    inners = [TSource(lab, spec, f"i{i}") for i, spec in enumerate(case["inners"])]
+    inners = [IterInner(spec, f"i{i}") if spec["kind"] == "iter" else TSource(lab, spec, f"i{i}") for i, spec in enumerate(case["inners"])]
     o, outer = build(case, lab, inners)
     p = lab.probe()
     sch = "lab" if case.get("sched", "lab") == "lab" else None
@@ -201,6 +207,11 @@ def _run(case):
         cls.append("mapper-raises")
         if op.raised_while_busy:
             cls.append("mapper-raises:while-slot-occupied" if maxc is not None else "mapper-raises:while-inner-active")
+    it = [op.arrivals[j] for j in op.started if case["inners"][op.arrivals[j]["src"]]["kind"] == "iter"]
+    if it:
+        cls.append("iter-inner")
+        if any(any(m[1] == "E" for m in case["inners"][a["src"]]["tl"]) and any(m[1] == "N" for m in case["inners"][a["src"]]["tl"]) for a in it):
+            cls.append("iter-inner:raises-after-items")
     tsrc = [i for i, x in enumerate(op.inners) if x.kind == "subsched" and x.handles]
     if tsrc:
         cls.append("subsched-inner")
@@ -292,6 +303,13 @@ def _cases(draw, forms, big=False):
             c["maxc"] = draw(st.sampled_from([1, 2, 2, 3, 1, 4]))
         if form == "flat_map_const":
             c["const"] = draw(st.integers(0, len(inn) - 1))
+        if form in ("flat_map", "flat_map_indexed") and draw(st.integers(0, 2)) == 0:
+            # the mapper returns a lazy iterable (generator) for some inners: k items, then it raises (or ends)
+            for i, spec in enumerate(inn):
+                if i == 0 or draw(st.booleans()):
+                    k = draw(st.sampled_from([1, 2, 3]))
+                    term = draw(st.sampled_from(["E", "E", "E", "C"]))
+                    inn[i] = {"kind": "iter", "tl": [[0, "N", f"n:{100 * i + q}"] for q in range(k)] + [[0, term, f"e{i}" if term == "E" else None]]}
         if form in ("flat_map", "flat_map_indexed", "concat_map") and draw(st.integers(0, 4)) == 0:
             c["raise_at"] = draw(st.sampled_from([1, 2, 0, 3]))
             return _clock(draw, c)
